@@ -1207,3 +1207,8 @@ def run(ctx):
     rule_j(ctx)
     rule_k(ctx)
     rule_l(ctx)
+    # obligations shared with a sibling property (evaluated by the owning module, reported here under letter x)
+    from engine.rulelib import share as _share
+    _share(ctx, 'C17', 'rule_c_finished', 'x', 'a stream finished in 0-RTT is re-queued with its FIN after a Retry (otherwise the stream never completes)')
+    _share(ctx, 'C18', 'rule_c', 'x', 'every mutation of connection state through the async API wakes the driver (otherwise queued frames are never sent on an idle connection)')
+
